@@ -13,17 +13,17 @@ from ..typed import Typed, is_set_type
 ENTRY = "find.get_citations"
 
 # reasoned exceptions, one line each: (function qualname, substring of the normalised construct) -> reason
-def _set_order_exception(q: str, node: ast.AST) -> Optional[str]:
+def _set_order_exception(q: str, node: ast.AST, is_converter: bool = False) -> Optional[str]:
     """reasoned exceptions, one line each, recognised by shape (not by local names)"""
     cur = node
     while cur is not None and not isinstance(cur, ast.stmt):
         par = getattr(cur, "parent", None)
         for cand in (cur, par):
-            if q.endswith("hyperscan_db.convert_regex") and isinstance(cand, ast.Call) and isinstance(cand.func, ast.Attribute) and cand.func.attr == "join" \
+            if (is_converter or q.endswith("hyperscan_db.convert_regex")) and isinstance(cand, ast.Call) and isinstance(cand.func, ast.Attribute) and cand.func.attr == "join" \
                     and isinstance(cand.func.value, ast.Constant) and cand.func.value.value == "":
                 par = cand
                 break
-        if q.endswith("hyperscan_db.convert_regex") and isinstance(par, ast.Call) and isinstance(par.func, ast.Attribute) and par.func.attr == "join" \
+        if (is_converter or q.endswith("hyperscan_db.convert_regex")) and isinstance(par, ast.Call) and isinstance(par.func, ast.Attribute) and par.func.attr == "join" \
                 and isinstance(par.func.value, ast.Constant) and par.func.value.value == "":
             gp = getattr(par, "parent", None)
             while gp is not None and not isinstance(gp, ast.JoinedStr) and not isinstance(gp, ast.stmt):
@@ -324,7 +324,7 @@ def run(ctx: Ctx):
             ok = u.verdict == "SAFE"
             reason = None
             if not ok:
-                reason = _set_order_exception(q, u.node)
+                reason = _set_order_exception(q, u.node, fs.node is repo.hyperscan_converter())
             ctx.ob("R-C15-1", f"{q}/set-use", ok or reason is not None,
                    (u.reason if ok else (f"exception: {reason}" if reason else
                     f"{u.reason}: the iteration order of a set depends on PYTHONHASHSEED / object addresses and reaches a value")),
